@@ -2,7 +2,7 @@
 from ..core import Ob
 T = ['matrix', 'vector', 'memwrapper', 'numeric', 'algebra', 'tensor', 'list', 'interpolate', 'preprocessing', 'pca', 'statistic', 'metricspace']
 META = dict(
-    functions=['PCA', 'calcVarExpressed', 'PCAScorePredictor', 'PCAIndVarPredictor', 'MatrixPreprocess', 'MatrixColVar', 'DVectNorm', 'DVectorDVectorDotProd', 'MT_MatrixDVectorDotProduct', 'MT_DVectorMatrixDotProduct', 'MatrixDVectorDotProduct', 'DVectorMatrixDotProduct'],
+    functions=['GetResidualMatrix', 'PCA', 'calcVarExpressed', 'PCAScorePredictor', 'PCAIndVarPredictor', 'MatrixPreprocess', 'MatrixColVar', 'DVectNorm', 'DVectorDVectorDotProd', 'MT_MatrixDVectorDotProduct', 'MT_DVectorMatrixDotProduct', 'MatrixDVectorDotProduct', 'DVectorMatrixDotProduct'],
     bounds='n in {2,3,4} x m in {1,2,3} (tall and wide), one pass of the real NIPALS loop per component from an arbitrary loop-head state (t and the carried loading p symbolic), 1..2 components, scaling -1 and 0 (other scalings compose with C10), worker counts 1..2 (compose with C13)',
     outside='rounding; convergence itself and therefore "non-increasing explained variance" and the 100 % total (statements about the limit of the iteration, see C02); shapes beyond the grid; MISSING-coded cells',
     stubs=['calcConvergence: forced exit verdict (one pass per component)', 'LSCI_VERIF_LOOP_HEAD hook: harness overwrites t and p', 'sqrt = exact real root (UF + axioms)', 'pthread_create synchronous'],
@@ -35,6 +35,13 @@ def obligations(tier):
     for which, nm in ((0, 'score_predictor'), (1, 'indvar_predictor')):
         obs.append(Ob(id=f'{nm}_reused_output/2x2npc2', harness='C01/predict.c', tus=T, defs={'HP_WHICH': which, 'HP_N': 2, 'HP_M': 2, 'HP_NPC': 2, 'HP_PRE': 2, 'HP_T': 1, 'HP_EXTRA': 0, 'HP_PREFILL': 1},
                       engine='real', unwind=8, timeout=to, clause='projection of new/training data; back-transformation', stubs=R, real={'nomissing': True}))
+    for (n, m, npc, pc) in ([(2, 2, 2, 1), (2, 2, 2, 2), (3, 2, 1, 1), (2, 3, 2, 0)] if not th else [(2, 2, 2, 1), (2, 2, 2, 2), (3, 2, 1, 1), (2, 3, 2, 0), (3, 3, 3, 2), (2, 3, 2, 2)]):
+        for scp in (0, 1):
+            for pf in (0, 1):
+                if pf and (n, m, npc, pc) != (2, 2, 2, 2): continue
+                obs.append(Ob(id=f'residual_matrix/{n}x{m}npc{npc}pc{pc}/scaling{scp}/{"reused_output" if pf else "fresh_output"}', harness='C01/residual.c', tus=T,
+                              defs={'HP_N': n, 'HP_M': m, 'HP_NPC': npc, 'HP_PC': pc, 'HP_SC': scp, 'HP_PREFILL': pf}, engine='real', unwind=8, timeout=to,
+                              clause='preprocessed data = scores x loadings\' + residual (GetResidualMatrix)', stubs=R, real={'nomissing': True}))
     for lem in (1, 2, 3, 4):
         for (n, m) in ([(2, 2), (3, 2), (3, 3)] if not th else [(2, 2), (3, 2), (3, 3), (4, 3), (2, 3)]):
             obs.append(Ob(id=f'lemma{lem}/{n}x{m}', harness='C01/lemmas.c', tus=['memwrapper'], defs={'HP_LEMMA': lem, 'HP_N': n, 'HP_M': m}, engine='real', unwind=6, timeout=to,
